@@ -234,3 +234,105 @@ def _(run):
         if kind_ != 'return' or not (isinstance(v, VObj) and v.name == 'items'): return z3.BoolVal(False)
         return z3.And(s.ghost['items_len'] == n, z3.ForAll([k], z3.Implies(z3.And(k >= 0, k < n), s.ghost['items_arr'][k] == want_item(chunks[k]))))
     run.post(ex, outs, pre, {'items-in-order-one-per-chunk': post})
+
+
+# ------------------------------------------------------------------ XsdAtomicRestriction.raw_decode: every facet of the restriction is applied (C02, C14)
+t = Target('simple_types.XsdAtomicRestriction.raw_decode', ['C02', 'C14'], F, 'XsdAtomicRestriction.raw_decode',
+           note='a restricted simple type decodes with its base type and then applies EVERY validator of the restriction to the decoded value, once each, collecting their errors with the '
+                'caller\'s validation mode; the patterns of the restriction are applied to the text as normalised by the restriction - or, when the primitive type is a union, handed to '
+                'the union through the context (only if no outer restriction has pushed patterns already); the value returned is the base type\'s value; a mixed complex base returns the text',
+           assumes=['the validators are an uninterpreted finite set of callables, each either passing or raising XMLSchemaValidationError; base decoding is uninterpreted',
+                    'obj is a str (bytes take the same path)'])
+
+
+@t.symbolic
+def _(run):
+    from xmlschema.validators.exceptions import XMLSchemaValidationError
+    ex = run.exec(); st = new_state()
+    obj = z3.String('obj'); norm = z3.Function('normalize', S, S); fails = z3.Function('validator_fails', Ref, B); vdom = z3.Const('validators', z3.ArraySort(Ref, B))
+    pat_none = z3.Bool('no_patterns'); pat_fails = z3.Bool('patterns_fail'); prim_union = z3.Bool('primitive_is_union'); ctx_none = z3.Bool('context_patterns_none')
+    base_simple, content_simple, base_mixed = z3.Bool('base_is_simple'), z3.Bool('base_content_is_simple'), z3.Bool('base_is_mixed')
+    res_none = z3.Bool('base_result_none')
+    st.objf['content'] = {}; st.objf['base'] = {'content': VObj('content'), 'mixed': VBool(base_mixed)}
+    st.objf['self'] = {'patterns': VOpt(pat_none, VStr(SV('<patterns>'))), 'primitive_type': VObj('prim'), 'base_type': VObj('base'), 'validators': ('validators',)}
+    st.objf['prim'] = {}
+    st.objf['context'] = {'patterns': VOpt(ctx_none, VStr(SV('<outer patterns>')))}
+    st.env.update(self=VObj('self'), obj=VStr(obj), validation=VStr(z3.String('validation')), context=VObj('context'))
+    st.ghost.update(errs=0, pattern_args=(), called=z3.K(Ref, False), twice=z3.BoolVal(False), decoded=None, cur=None, verrs=z3.K(Ref, False))
+    ex.names.update(XsdUnion=OPAQUE, XsdSimpleType=OPAQUE, XMLSchemaValueError=OPAQUE)
+
+    def isinstance_(e, s, r, a, k):
+        tn = ast.unparse(a[1]); x = a[0]
+        if isinstance(x, VStr): return VBool(z3.BoolVal('str' in tn))
+        if isinstance(x, VObj) and x.name == 'prim': return VBool(prim_union)
+        if isinstance(x, VObj) and x.name == 'base': return VBool(base_simple)
+        if isinstance(x, VObj) and x.name == 'content': return VBool(content_simple)
+        raise Unsupported('isinstance ' + tn)
+    ex.callees['isinstance'] = isinstance_
+    ex.callees['normalize'] = lambda e, s, r, a, k: VStr(norm(lift(a[0]).t))
+    ex.callees['_'] = lambda *a: OPAQUE
+
+    def patterns_call(e, s, r, a, k):
+        s.ghost['pattern_args'] = s.ghost['pattern_args'] + (lift(a[0]).t,)
+        e.pending_raise.append((pat_fails, VExc(XMLSchemaValidationError)))
+        return NONE
+    ex.callees['patterns'] = patterns_call
+
+    def verr(e, s, r, a, k):
+        s.ghost['errs'] += 1
+        if s.ghost.get('cur') is not None: s.ghost['verrs'] = z3.Store(s.ghost['verrs'], s.ghost['cur'], True)
+        else: s.ghost['errs_outside'] = s.ghost.get('errs_outside', 0) + 1
+        return NONE
+    ex.callees['validation_error'] = verr
+
+    def raw_decode(e, s, r, a, k):
+        s.ghost['decoded'] = (r.name if isinstance(r, VObj) else '?', lift(a[0]).t)
+        return VOpt(res_none, VRef(z3.Const('base_result', Ref)))
+    ex.callees['raw_decode'] = raw_decode
+
+    def validator(e, s, r, a, k):
+        x = s.ghost['cur']
+        s.ghost['twice'] = z3.Or(s.ghost['twice'], s.ghost['called'][x]); s.ghost['called'] = z3.Store(s.ghost['called'], x, True)
+        e.pending_raise.append((fails(x), VExc(XMLSchemaValidationError)))
+        return NONE
+    ex.callees['validator'] = validator
+    q = z3.Const('q', Ref)
+
+    def loop(ex_, node, s):
+        inv = lambda s2, seen: z3.And(z3.ForAll([q], s2.ghost['called'][q] == seen[q]), z3.Not(s2.ghost['twice']), z3.ForAll([q], s2.ghost['verrs'][q] == z3.And(seen[q], fails(q))))
+        def havoc(s2): s2.ghost['called'] = z3.FreshConst(z3.ArraySort(Ref, B), 'called'); s2.ghost['twice'] = z3.FreshConst(B, 'twice'); s2.ghost['verrs'] = z3.FreshConst(z3.ArraySort(Ref, B), 'verrs')
+        def bind(sb, x): sb.env['validator'] = VRef(x); sb.ghost['cur'] = x
+        outs = foreach(ex_, node, s, Ref, vdom, bind, inv, havoc)
+        for _, _, s2 in outs: s2.ghost['cur'] = None
+        return outs
+    ex.invariants['for validator in self.validators'] = loop
+    pre = z3.BoolVal(True)
+    outs = ex.run(st, pre)
+
+    def every_validator(kind, v, s):
+        if kind == 'raise': return z3.BoolVal(False) if not (isinstance(v, VExc) and v.cls is not None and v.cls.__name__ == 'XMLSchemaValueError') else z3.BoolVal(True)
+        reached = z3.And(z3.Or(base_simple, content_simple), z3.Not(res_none))
+        return z3.Implies(reached, z3.And(z3.ForAll([q], s.ghost['called'][q] == vdom[q]), z3.Not(s.ghost['twice']), z3.ForAll([q], s.ghost['verrs'][q] == z3.And(vdom[q], fails(q)))))
+
+    def patterns(kind, v, s):
+        if kind != 'return': return None
+        args = s.ghost['pattern_args']; pushed = s.objf['context']['patterns']
+        applied_here = z3.And(z3.Not(pat_none), z3.Not(prim_union))
+        ok_args = z3.If(applied_here, z3.BoolVal(len(args) == 1) if len(args) != 1 else (args[0] == norm(obj)), z3.BoolVal(len(args) == 0))
+        push = z3.And(z3.Not(pat_none), prim_union, ctx_none)
+        ok_push = z3.If(push, z3.BoolVal(isinstance(pushed, VOpt) and pushed is s.objf['self']['patterns'] or (isinstance(pushed, VOpt) and z3.is_false(z3.simplify(pushed.none))) and not isinstance(pushed, VNone)),
+                        z3.BoolVal(pushed is st.objf['context']['patterns'] or (isinstance(pushed, VOpt) and pushed.none is ctx_none)))
+        return z3.And(ok_args, ok_push)
+
+    def base_value(kind, v, s):
+        if kind != 'return': return None
+        dec = s.ghost['decoded']
+        simple = z3.Or(base_simple, content_simple)
+        if dec is None: return z3.Not(simple)      # the mixed-base path: the text is returned
+        who_ok = z3.If(base_simple, z3.BoolVal(dec[0] == 'base'), z3.BoolVal(dec[0] == 'content'))
+        return z3.And(simple, who_ok, dec[1] == norm(obj), z3.BoolVal(isinstance(v, VOpt) and v.none is res_none))
+    def pattern_error(kind, v, s):
+        if kind != 'return': return None
+        n = s.ghost.get('errs_outside', 0)
+        return z3.If(z3.And(z3.Not(pat_none), z3.Not(prim_union), pat_fails), z3.BoolVal(n == 1), z3.BoolVal(n == 0))
+    run.post(ex, outs, pre, {'a-pattern-failure-is-collected-as-one-error': pattern_error, 'every-validator-applied-once-and-its-error-collected': every_validator, 'patterns-applied-here-or-handed-to-the-union': patterns, 'decoded-by-the-base-type-from-the-normalised-text': base_value})
